@@ -11,7 +11,7 @@
 (* every event must be a legal Cut (phase 1) or Trim (phase 2); the final  *)
 (* machine state must be the produced instance (as a multiset of shapes).  *)
 (***************************************************************************)
-EXTENDS InstDecoder, F64, TraceIO
+EXTENDS InstDecoder, F64, Dyadic, TraceIO
 VARIABLE tid
 
 \* fold the events; state = [items, area, bad]
@@ -43,8 +43,22 @@ ResArea(res) == LET f[i \in 0..Len(res.items)] ==
 ResCount(res) == LET f[i \in 0..Len(res.items)] == IF i = 0 THEN 0 ELSE f[i - 1] + res.items[i][3]
                  IN f[Len(res.items)]
 
+Sim == INSTANCE Similarity
+\* the similarity value (an exact dyadic number vd, scale 2^60) against the documented sum: value * MaxErrors must
+\* be the error count (clamped at MaxErrors) up to the rounding of one float division (relative 2^-40)
+SimClause(c, o) ==
+  IF ~("vd" \in DOMAIN o /\ "titems" \in DOMAIN c.t) THEN {}
+  ELSE LET cnt == Sim!ErrorCount(c.t.titems, c.res.items)
+           mx == Sim!MaxErrors(c.t.titems, c.t.W, c.t.H, c.t.k)
+           want == IF cnt > mx THEN mx ELSE cnt
+           lhs == DMulInt(o.vd, mx)           \* value * MaxErrors, scale 2^60
+           rhs == DInt(want)
+       IN IF mx <= 0 THEN {"driver-similarity-max-errors"}
+          ELSE IF BLe(BMul(DAbs(DSub(lhs, rhs)), P40), BAdd(DAbs(rhs), <<1>>)) THEN {}
+          ELSE {"similarity-not-the-documented-deviation-sum"}
 ObjClauses(c) ==
   UNION {LET o == c.objs[k] IN
+         (IF o.name = "errors" THEN SimClause(c, o) ELSE {}) \cup
          (IF ~FInClosed(o.v, FZero, FOne) THEN {"objective-outside-[0,1]:" \o o.name} ELSE {})
          \cup (IF o.name = "hardness" /\ ~FSame(o.v, o.v2) THEN {"hardness-not-repeatable"} ELSE {})
          \cup (IF o.name = "hardness-history" /\ ~FSame(o.v, o.v2) THEN {"hardness-depends-on-evaluation-history"} ELSE {})
